@@ -36,7 +36,7 @@ import (
 	"verif/harness/g4lib"
 )
 
-var watchdog = 120 * time.Second
+var watchdog = 300 * time.Second // generous: the box is shared; a fired watchdog is inconclusive
 
 const rowsBatch = 128 // server/handler.go
 
@@ -660,8 +660,13 @@ func main() {
 	}
 	phase("quiescence")
 	r.Extra("goroutines.baseline", baseGoroutines)
-	srvT.Close()
-	srvP.Close()
+	closed := make(chan struct{})
+	go func() { srvT.Close(); srvP.Close(); close(closed) }()
+	select {
+	case <-closed:
+	case <-time.After(watchdog):
+		r.Inconclusive("watchdog:server-close")
+	}
 
 	g4lib.ReportRaces(r, nil)
 	hits := verifhook.Counters()
@@ -710,7 +715,7 @@ func sequential(r *core.Run, engR *core.Eng, srvT, srvP *core.Srv) {
 		return
 	}
 	defer t.close()
-	n := r.N(400, 5000)
+	n := r.N(300, 4000)
 	sideK := 0
 	r.Parallel("sequential", 1, func(int) {
 		for i := 0; i < n; i++ {
@@ -804,7 +809,7 @@ func runTriple(r *core.Run, t *triple, st stmt, i int) (connLost bool) {
 
 func concurrent(r *core.Run, srv *core.Srv, rep int) {
 	type tier struct{ clients, stmts int }
-	tiers := []tier{{1, r.N(20, 100)}, {8, r.N(100, 400)}, {32, r.N(12, 150)}}
+	tiers := []tier{{1, r.N(15, 100)}, {8, r.N(60, 400)}, {32, r.N(10, 120)}}
 	for ti, t := range tiers {
 		var wg sync.WaitGroup
 		var seq atomic.Int64
